@@ -98,6 +98,12 @@ func setivCase(c *mon.Case, bf *bufs, s spec, path string, pl placement, rep int
 		c.Fail("reject", "%s: constructor refused valid parameters: %v", what, err)
 		return
 	}
+	// the object owns copies of key and IV: the caller's buffers are overwritten now
+	for _, b := range [][]byte{p.key, p.iv} {
+		for i := range b {
+			b[i] = 0x5A
+		}
+	}
 	setter, ok := bm.(ivSetter)
 	if !ok {
 		// the object does not offer SetIV on this path: nothing to decide
